@@ -1430,6 +1430,8 @@ from mlmverif.selfcheck import B, OK  # noqa: E402
 _R = 'aggregates/rolling_stats.py'
 _C = 'aggregates/classification.py'
 VARIANTS = [
+    OK('nested-agg-preprocesses-through-a-local', 'aggregates/base.py',
+       "    if self.preprocess_fn:\n      inputs = self.preprocess_fn(inputs)\n    if state is None:\n", "    prep = self.preprocess_fn\n    if prep:\n      inputs = prep(inputs)\n    if state is None:\n"),
     B('nested-agg-preprocesses-the-first-batch-only', 'aggregates/base.py',
       "    if self.preprocess_fn:\n      inputs = self.preprocess_fn(inputs)\n    if state is None:\n", "    if state is None:\n      if self.preprocess_fn:\n        inputs = self.preprocess_fn(inputs)\n", 'R-C01-23'),
     B('topk-matrix-sum-swaps-fp-and-tn', 'aggregates/classification.py',
